@@ -8,7 +8,9 @@ def _chain_filter(clauses=None, completeness=False):
     def f(pid, d):
         cl = d.get("class", "")
         if "harness/model error" in cl:
-            return True
+            # the scenario could not be built or decided at all (a delegation that does not decode, a constructor that refuses):
+            # something rule-conforming is not accepted — a completeness matter, and of no other clause
+            return completeness
         if cl.startswith("chain.validat"):
             return pid == "C04"
         if completeness:
@@ -90,7 +92,7 @@ PROPS = {
         assumptions=["map keys are unique (basicnode rejects duplicates at assembly)", "string slicing by character uses the Go UTF-8 decoding rules modelled in Model/Utf8.lean, checked differentially incl. invalid UTF-8"],
     ),
     "C11": dict(
-        tie=["Ucan.Props.Tie.PolicyMatch"],
+        tie=["Ucan.Props.Tie.PolicyMatch", "Ucan.Props.Tie.PolicyAcc"],
         props_module="Ucan.Props.C11",
         streams=["policy"],
         technique="Lean 4 proofs over a mutual-recursive model of matchStatement: classical semantics under a resolves predicate, invariance under an inductively defined operand-permutation relation (loops shown equal to folds of commutative-associative four-valued operations), monotonicity, full⇒partial, concatenation; tied to the code by an exhaustive depth-≤2 statement × data differential run plus random permuted policies",
@@ -99,7 +101,7 @@ PROPS = {
         assumptions=["integers in policies and data fit int64 (otherwise must.Int/DeepEqual panic: C09)", "or [] is true, as the UCAN specification and the in-tree tests require"],
     ),
     "C01": dict(
-        tie=["Ucan.Props.Tie.ChainProofs", "Ucan.Props.Tie.ChainOrder"],
+        tie=["Ucan.Props.Tie.ChainLoad", "Ucan.Props.Tie.ChainProofs", "Ucan.Props.Tie.ChainOrder"],
         props_module="Ucan.Props.C01",
         streams=["chain"],
         filter=_chain_filter(clauses=["principal", "load"]),
@@ -155,7 +157,10 @@ PROPS = {
     ),
     "C08": dict(
         props_module="Ucan.Props.C08",
-        streams=["sealed"],
+        streams=["sealed", "container"],
+        # of the container stream: the cases whose point is WHICH CID a token is known under after a read (a block labelled with
+        # another codec, hash or an earlier block's CID) — the token's identifier is the one of its sealed bytes, whatever the label says
+        filter=lambda pid, d: d.get("stream") != "container" or any(t in d.get("class", "") for t in ("foreign-cid", "mislabelled")),
         technique="Lean 4 proof (mutual structural recursion over the IPLD tree) that a lenient CBOR decoder inverts the canonical DAG-CBOR encoder, hence the encoding is injective and prefix-free and accepted bytes are exactly the canonical encoding of their content, so equal content ⇒ equal bytes ⇒ equal CID; tied by differential runs against go-ipld-prime's dagcbor and by every single-tweak re-encoding of real sealed tokens through all six unsealing APIs",
         level_text="C08_decode_encode, C08_prefix_free, C08_encode_injective, C08_canonical (accept b = some n ⇒ b = encode n), C08_accept_encode, C08_unique_cid (two accepted byte strings with the same content are equal, so their CIDs are), C08_cid_distinct. The CID reported by ToSealed/ToSealedWriter/FromSealed/FromSealedReader (generic and typed) is compared with an independent CIDv1(dag-cbor, sha2-256) for Ed25519, secp256k1, P-256 (RSA in the thorough tier); every re-encoding of each sealed token (wider head at each item, indefinite length at each string/list/map, swapped map entries, extra outer element) and key-less signature re-encodings are offered to every unsealing function.",
         level_note="Trusted: Lean kernel; dagcbor (go-ipld-prime/refmt), go-cid, go-multihash and SHA-256 are dependencies represented by Model/Cbor.lean and the parameter sha256 — the model is validated against dagcbor differentially, not proved. Uniqueness of the CID for a given signed content additionally needs each signature scheme to admit one signature encoding per (key, message): measured by the stream — holds for Ed25519/RSA, refuted for ECDSA (open known finding F-C08-ecdsa-signature-malleability).",
@@ -189,7 +194,10 @@ PROPS = {
     "C10": dict(
         props_module="Ucan.Props.C10",
         streams=["token"],
-        filter=_token_filter(["token.field-", "literal.exact", "token.envelope:tag-", "token.envelope:sp-", "token.envelope:payload-not-map", "token.envelope:outer-extra"]),
+        # field cases count in ONE direction: something malformed is accepted (or accepted with another value than the model
+        # accepts it with is a C06/C07 matter: the token that comes out is still well-formed)
+        filter=lambda pid, d: _token_filter(["token.field-", "literal.exact", "token.envelope:tag-", "token.envelope:sp-", "token.envelope:payload-not-map", "token.envelope:outer-extra"])(pid, d)
+        and (not d.get("class", "").startswith("token.field-") or "go-accepts-model-rejects" in d.get("class", "") or "PANIC" in d.get("class", "") or "TIMEOUT" in d.get("class", "")),
         technique="Lean 4 proofs of envelope and schema strictness over REGENERATED schema tables (decide-checked facts: tags differ, Go struct field order = schema order, nonce minimum ≥ 12), of tag-directed dispatch (no type confusion) and of the well-formedness of every decoded delegation; tied by the full product field × mutation × decoder, each correctly re-signed, and by every Go integer type at its boundaries through literal.Any/args.Add/meta.Add",
         level_text="C10_tags_differ, C10_struct_order, C10_nonce_min, C10_schema_kinds_known, C10_schema_strict, C10_no_type_confusion_dlg/inv, C10_generic_dispatch, C10_decoded_dlg_wf (nonce ≥ 12, command in the grammar, time bounds within ±(2^53−1)). Go: every payload field of both token types × {dropped, null, 19 retypings incl. boundary integers, field-specific malformed values} + unknown key + envelope shape cases, re-signed, through 3 decoders (× DAG-JSON sample); 90 (type, value) integer cases exact-or-rejected.",
         level_note=_TOKEN_NOTE,
